@@ -9,9 +9,6 @@
              'subtrees are compared with the implementation on every case',
              'tokenisation (lines, csv records, EDI segments) is outside this property: units are what the '
              'tokenizers deliver'],
- 'assumptions': ['machine_eq_spec is proved for every fuel with which the run reaches a terminal result '
-                 '(..._partial); that run_fuel iterations always suffice (hier_terminates) is only swept '
-                 'over a small scope and checked on every correspondence case',
-                 'max >= 1 for every declaration (not enforced by validation: finding F17)',
+ 'assumptions': ['max >= 1 for every declaration (not enforced by validation: finding F17)',
                  'EDI: no_root_repeat (known finding F14) and input ends with a segment terminator (known '
                  'finding F8)']}
